@@ -158,7 +158,10 @@ func validateServerLedActivationToken(
 	// into the function directly; either transfer state via token entry, or
 	// when calling this function.
 	if tokenEntry.State != nil {
-		opt = append(opt, nodeenrollment.WithState(tokenEntry.State))
+		// Append to a copy: opt is the caller's slice, and appending in place
+		// would write into any spare capacity it has, which the caller may be
+		// using for a different set of options
+		opt = append(opt[:len(opt):len(opt)], nodeenrollment.WithState(tokenEntry.State))
 	}
 
 	// We need to remove this since it's one-time-use. Note that it's up to the
